@@ -72,7 +72,7 @@ def net_sessions(impl_lines, model_lines, root, timeout=1800):
     shutil.rmtree(root, ignore_errors=True)
     died = None
     try:
-        impl = run_harness(["net", "--root", root], impl_lines, timeout=timeout)
+        impl = run_harness(["net", "--root", root, "--fast-fail", "6"], impl_lines, timeout=timeout)
     except Died as d:
         impl, died = d.answered, d
     model = run_driver(model_lines, timeout=timeout)
